@@ -174,7 +174,9 @@ type vRH struct {
 	scanner []container.DefinitionRegistryPostProcessor
 }
 
-func newRH() *vRH {
+func newRH() *vRH { return newRHOrder(nd.Param("PORDER", 1) == 1) }
+
+func newRHOrder(orderMix bool) *vRH {
 	f := &defaultFactory{
 		definitionRegistry:                support.DefaultDefinitionRegistry(),
 		singletonComponentRegistry:        support.DefaultSingletonComponentRegistry(),
@@ -191,7 +193,7 @@ func newRH() *vRH {
 	}
 	// registration order of the three processors is arbitrary
 	ps := []container.ComponentPostProcessor{dep, fn, fm}
-	if nd.Bool() {
+	if orderMix && nd.Bool() {
 		ps = []container.ComponentPostProcessor{fm, fn, dep}
 	}
 	for _, p := range ps {
@@ -288,12 +290,14 @@ func vCompatible(kind, t int) bool {
 
 // providers: k instances with symbolic type; at most one unnamed instance per type
 // (two unnamed components of one type share a default name and cannot both be registered).
-func vProviders(k int, withQ bool) ([]any, []int) {
+func vProviders(k int, withQ bool) ([]any, []int) { return vProvidersOf(k, withQ, []int{tPA, tPB, tPC, tPP}) }
+
+func vProvidersOf(k int, withQ bool, types []int) ([]any, []int) {
 	var ps []any
 	var ts []int
 	unnamed := [nProviderTypes]bool{}
 	for i := 0; i < k; i++ {
-		t := nd.Choose(nProviderTypes)
+		t := types[nd.Choose(len(types))]
 		a := vAttr{id: i}
 		if !unnamed[t] && nd.Bool() {
 			unnamed[t] = true
@@ -603,7 +607,7 @@ func VerifC08() {
 		fields = []vFieldView{{name: "A", single: func() any { return ifaceOrNil(x.A) }}, {name: "B", slice: true, multi: func() []any { return ifaceSlice(x.B) }}, {name: "C", single: func() any { return ifaceOrNil(x.C) }}}
 	}
 	// candidates: implementers of vI1 (*vPA, *vPB, *vPP) and *vPC (not an implementer)
-	ps, ts := vProviders(k, true)
+	ps, ts := vProvidersOf(k, true, []int{tPA, tPC, tPP})
 	hm := r.register(h, "holder")
 	for _, p := range ps {
 		r.register(p, vProviderName(p))
